@@ -357,8 +357,8 @@ class History:
             self.report(m.after_probe(self, s, s2, i, i.vehicle_id))
 
     def _op_probe_batch(self, directives) -> None:
-        """apply several instructions (at most one per vehicle) at once, and separately only those that were
-        accepted; monitors with a `batch` method compare the two results"""
+        """apply several instructions (at most one per vehicle) at once, and separately one at a time in the same
+        order; monitors with a `batch` method compare the two results"""
         from nrel.hive.reporting.reporter import Reporter
         from nrel.hive.state.simulation_state.update.step_simulation_ops import apply_instructions
 
@@ -372,8 +372,9 @@ class History:
         s = self.sim
         with quiet():
             s2 = apply_instructions(s, env2, tuple(instrs))
-            accepted = tuple(i for i in instrs if s.vehicles[i.vehicle_id].vehicle_state.instance_id != s2.vehicles[i.vehicle_id].vehicle_state.instance_id)
-            s3 = apply_instructions(s, env2, accepted)
+            s3 = s
+            for i in instrs:  # the same instructions one at a time
+                s3 = apply_instructions(s3, env2, (i,))
         self.stats["batch_probes"] += 1
         for m in self.monitors:
             fn = getattr(m, "batch", None)
